@@ -1,7 +1,7 @@
 // Families "vol-roundtrip" (C01: pack -> reopen -> list/stream/extract vs an in-memory file-set model,
 // refusal worlds with disk snapshots; C02: the durable bytes parsed by the independent VOL decoder) and
 // "vol-foreign" (C02: archives emitted by the independent encoder opened with the library).
-#include "common.h"
+#include "archive_check.h"
 #include "../models/refvol.h"
 #include "../models/reflzh.h"
 #include "Archive/VolFile.h"
@@ -13,8 +13,6 @@ using namespace OP2Utility;
 
 namespace sim {
 namespace {
-
-struct Member { std::string name; std::vector<uint8_t> data; std::vector<uint8_t> stored; uint16_t kind = 0x100; uint32_t size = 0; };
 
 uint64_t pickSize(Rng& r, bool thorough) {
 	switch (r.below(thorough ? 14 : 12)) {
@@ -29,122 +27,6 @@ uint64_t pickSize(Rng& r, bool thorough) {
 	default: return r.chance(1, 2) ? 262143 : 262145;
 	}
 }
-
-// Query / stream / extract operations on an opened archive, checked against the expected members.
-struct ArchiveChecker {
-	RunCtx& ctx;
-	const Plan& plan;
-	Archive::ArchiveFile& ar;
-	Archive::VolFile* vol;
-	const std::vector<Member>& exp;
-	std::string P; // clause prefix family, e.g. "C01" names below
-	std::string clListing, clStream, clExtract, clLookup;
-	bool any = false;
-
-	void listing() {
-		size_t count = 0;
-		std::string what;
-		Out o = callLib(plan, [&] { count = ar.GetCount(); }, &what);
-		if (o != OkOut || count != exp.size()) ctx.fail(clListing, "archive lists " + std::to_string(count) + " members, expected " + std::to_string(exp.size()));
-		for (size_t i = 0; i < exp.size(); ++i) {
-			std::string nm;
-			uint32_t sz = 0;
-			int kind = 0;
-			o = callLib(plan, [&] { nm = ar.GetName(i); sz = ar.GetSize(i); if (vol) kind = static_cast<int>(vol->GetCompressionCode(i)); }, &what);
-			if (o != OkOut) ctx.fail(clListing, "listing member " + std::to_string(i) + " failed: " + what);
-			if (nm != exp[i].name) ctx.fail(clListing, "member " + std::to_string(i) + " is named '" + nm + "', expected '" + exp[i].name + "' (ascending case-insensitive order of the final path components)");
-			if (sz != exp[i].size) ctx.fail(clListing, "member " + std::to_string(i) + " '" + nm + "' reports size " + std::to_string(sz) + ", expected " + std::to_string(exp[i].size));
-			if (vol && kind != exp[i].kind) ctx.fail(clListing, "member " + std::to_string(i) + " reports compression kind " + std::to_string(kind) + ", expected " + std::to_string(exp[i].kind));
-		}
-		ctx.event("listing " + std::to_string(count));
-	}
-
-	void stream(size_t i, uint64_t rseed, bool byName, uint64_t variant) {
-		if (exp.empty()) return;
-		i %= exp.size();
-		const std::vector<uint8_t>& want = exp[i].stored.empty() && exp[i].kind == 0x100 ? exp[i].data : exp[i].stored;
-		std::unique_ptr<Stream::BidirectionalReader> s;
-		std::string what;
-		Out o = callLib(plan, [&] { s = byName ? ar.OpenStream(caseVariant(exp[i].name, variant)) : ar.OpenStream(i); }, &what);
-		if (o != OkOut || !s) ctx.fail(clStream, "OpenStream(" + std::to_string(i) + ") failed: " + what);
-		uint64_t len = 0;
-		{ Armed a; len = s->Length(); }
-		if (len != want.size()) ctx.fail(clStream, "stream of member " + std::to_string(i) + " '" + exp[i].name + "' has length " + std::to_string(len) + ", expected " + std::to_string(want.size()));
-		Rng r(rseed);
-		std::vector<uint8_t> got;
-		while (got.size() < want.size()) {
-			size_t rem = want.size() - got.size();
-			size_t k;
-			switch (r.below(5)) { case 0: k = 1; break; case 1: k = 1 + r.below(7); break; case 2: k = rem; break; case 3: k = 1 + r.below(4096); break; default: k = 1 + r.below(200000); break; }
-			if (k > rem) k = rem;
-			std::unique_ptr<char[]> buf(new char[k]);
-			o = callLib(plan, [&] { s->Read(buf.get(), k); }, &what);
-			if (o != OkOut) ctx.fail(clStream, "reading " + std::to_string(k) + " bytes at " + std::to_string(got.size()) + " of member " + std::to_string(i) + " failed: " + what);
-			got.insert(got.end(), buf.get(), buf.get() + k);
-		}
-		if (got != want) {
-			size_t d = 0;
-			while (d < got.size() && got[d] == want[d]) ++d;
-			ctx.fail(clStream, "stream of member " + std::to_string(i) + " '" + exp[i].name + "' differs from the stored bytes at offset " + std::to_string(d));
-		}
-		char extra;
-		size_t n = 1;
-		{ Armed a; n = s->ReadPartial(&extra, 1); }
-		if (n != 0) ctx.fail(clStream, "stream of member " + std::to_string(i) + " delivers bytes beyond its length");
-		{ Armed a; s.reset(); }
-		if (!want.empty()) any = true;
-		ctx.event("stream " + std::to_string(i) + " " + hex64(fnv1a(got.data(), got.size())));
-	}
-
-	void checkFile(const std::string& path, const std::vector<uint8_t>& want, const std::string& desc) {
-		std::vector<uint8_t> got;
-		if (!disk::get(path, got)) ctx.fail(clExtract, desc + ": no file at " + path);
-		if (got != want) {
-			size_t d = 0;
-			while (d < got.size() && d < want.size() && got[d] == want[d]) ++d;
-			ctx.fail(clExtract, desc + ": extracted file has " + std::to_string(got.size()) + " bytes, expected " + std::to_string(want.size()) + "; first difference at " + std::to_string(d));
-		}
-	}
-
-	void extract(size_t i, bool byName, uint64_t variant, size_t opIdx) {
-		if (exp.empty()) return;
-		i %= exp.size();
-		if (exp[i].kind != 0x100 && exp[i].kind != 0x103) return;
-		std::string path = "_ex" + std::to_string(opIdx) + "/m" + std::to_string(i) + ".bin";
-		std::string what;
-		Out o = callLib(plan, [&] { if (byName) ar.ExtractFile(caseVariant(exp[i].name, variant), path); else ar.ExtractFile(i, path); }, &what);
-		std::string desc = std::string(byName ? "ExtractFile(name)" : "ExtractFile(index)") + " of member " + std::to_string(i) + " '" + exp[i].name + "'";
-		if (o != OkOut) ctx.fail(clExtract, desc + " failed: " + what);
-		checkFile(path, exp[i].data, desc);
-		if (!exp[i].data.empty()) any = true;
-		ctx.event("extract " + std::to_string(i));
-	}
-
-	void extractAll(size_t opIdx) {
-		for (auto& m : exp) if (m.kind != 0x100 && m.kind != 0x103) return;
-		std::string dir = "_all" + std::to_string(opIdx);
-		std::string what;
-		Out o = callLib(plan, [&] { ar.ExtractAllFiles(dir); }, &what);
-		if (o != OkOut) ctx.fail(clExtract, "ExtractAllFiles failed: " + what);
-		for (auto& m : exp) checkFile(dir + "/" + m.name, m.data, "ExtractAllFiles member '" + m.name + "'");
-		auto snap = disk::snapshot(dir);
-		if (!exp.empty() && snap.size() != exp.size()) ctx.fail(clExtract, "ExtractAllFiles produced " + std::to_string(snap.size()) + " entries for " + std::to_string(exp.size()) + " members");
-		ctx.event("extractall " + std::to_string(exp.size()));
-	}
-
-	void lookup(size_t i, uint64_t variant) {
-		if (exp.empty()) return;
-		i %= exp.size();
-		std::string q = caseVariant(exp[i].name, variant);
-		size_t idx = SIZE_MAX;
-		bool has = false;
-		std::string what;
-		Out o = callLib(plan, [&] { has = ar.Contains(q); idx = ar.GetIndex(q); }, &what);
-		if (o != OkOut) ctx.fail(clLookup, "looking up '" + q + "' (member " + std::to_string(i) + " is '" + exp[i].name + "') failed: " + what);
-		if (!has || idx != i) ctx.fail(clLookup, "lookup of '" + q + "' returned contains=" + std::to_string(has) + " index=" + std::to_string(idx) + ", expected member " + std::to_string(i));
-		ctx.event("lookup " + std::to_string(i));
-	}
-};
 
 std::string spell(const std::string& dir, const std::string& name, uint64_t sp) {
 	if (dir.empty()) return (sp % 2) ? "./" + name : name;
